@@ -543,5 +543,129 @@ return r
 			Entries: []*Entry{{Name: "§_F0", Params: []Kind{KInt}, Ret: KInt, Tuples: ints(0, 1, 2, 3)}},
 			NParams: map[string]int{"§_F0": 1},
 		},
+		{
+			Kind:    "corpus",
+			Note:    "a labelled range whose range expression is an inlined call with a loop (testdata/inline.VarSum): continue L from a nested for, break L from a nested switch (the statement's label must be bound before the range expression is walked)",
+			Imports: inlineImport,
+			Plain: `func §_F0(n int) int {
+res := 0
+outer:
+for i := range inline.VarSum(n, 1, 2) {
+for j := 0; j < 4; j++ {
+if j == i%3 {
+continue outer
+}
+res += 10
+}
+res += 1000
+}
+return res
+}
+func §_F1(n int) int {
+res := 0
+outer:
+for i := range inline.VarSum(n, 1, 2) {
+switch {
+case i == n:
+break outer
+default:
+res += i + 1
+}
+}
+return res
+}
+`,
+			Entries: []*Entry{{Name: "§_F0", Params: []Kind{KInt}, Ret: KInt, Tuples: ints(0, 1, 2, 3, 4, 5)},
+				{Name: "§_F1", Params: []Kind{KInt}, Ret: KInt, Tuples: ints(0, 1, 2, 3, 4, 5)}},
+			NParams: map[string]int{"§_F0": 1, "§_F1": 1},
+		},
+		{
+			Kind:    "corpus",
+			Note:    "every labelled statement kind with an inlined loop helper in its header (for init / cond / post, switch init, nested labelled range in labelled for), each with an executed labelled break and continue",
+			Imports: inlineImport,
+			Plain: `func §_F0(x int) int {
+r := 0
+A:
+for i := inline.VarSum(x, 1, 2); i > 0; i-- {
+for j := 0; j < 3; j++ {
+if j == i%3 {
+continue A
+}
+if i == 2 {
+break A
+}
+r += 10
+}
+r += 1000
+}
+B:
+for i := 0; i < inline.VarSum(x, 1, 1); i++ {
+switch {
+case i == 1:
+continue B
+case i == 3:
+break B
+}
+r += 7
+}
+C:
+for i := 0; i < 9; i += inline.VarSum(x, 0, 1) {
+for k := 0; k < 2; k++ {
+if k == 1 && i > 0 {
+continue C
+}
+if i > 6 {
+break C
+}
+r += 3
+}
+r += 100
+}
+return r
+}
+func §_F1(x int) int {
+r := 0
+O:
+for t := 0; t < inline.SumVar(x, 2); t++ {
+S:
+switch q := inline.VarSum(t, x, 1); q {
+case 1, 2:
+if t == 0 {
+break S
+}
+r += 10
+case 3:
+r += 5
+continue O
+default:
+if t > 3 {
+break O
+}
+r += 100
+}
+I:
+for i := range inline.VarSum(t, 0, 1) {
+if i == 1 {
+continue O
+}
+if i == 2 {
+break I
+}
+for j := 0; j < 2; j++ {
+if j == 1 {
+continue I
+}
+r += 1
+}
+}
+r += 1000
+}
+return r
+}
+`,
+			Entries: []*Entry{{Name: "§_F0", Params: []Kind{KInt}, Ret: KInt, Tuples: ints(0, 1, 2, 3)},
+				{Name: "§_F1", Params: []Kind{KInt}, Ret: KInt, Tuples: ints(0, 1, 2, 3)}},
+			NParams: map[string]int{"§_F0": 1, "§_F1": 1},
+		},
 	}
 }
